@@ -171,4 +171,31 @@ example : colsOf (fun l => l.sum) 3 2 1 = [0, 0] ∧
 example : ([9, 1, 0].countP fun v : ℕ => (3 : ℝ) < (v : ℝ)) = 1 := by
   simp
 
+/-! ## Why the guarantee has a floor under enhanced double hashing (the open known finding)
+
+The theorems above give `< δ·w^d` bad column tuples **among all `w^d`**.  The hash iterator,
+however, derives all `d` columns of an element from the two residues `h₁ mod w`, `h₂ mod w`: -/
+
+/-- Two elements whose two base hashes agree modulo the width get the same column in **every**
+row, whatever the hasher and however many rows there are.  Only `w²` of the `w^d` column tuples
+are reachable, so two heavy elements collide everywhere with probability about `1/w²` under a
+uniform hasher — a failure rate no number of rows reduces (measured: ≈ 0.135·ε). -/
+theorem double_hashing_full_collision (hash : List Nat → Nat) (w d x y : Nat)
+    (h1 : hash [0, x] % w = hash [0, y] % w) (h2 : hash [1, x] % w = hash [1, y] % w) :
+    HashIter.positions hash w d x = HashIter.positions hash w d y := by
+  unfold HashIter.positions
+  split
+  · rfl
+  · simp only [h1, h2]
+
+/-- Consequently such a pair is indistinguishable to the sketch: same cells, same estimate. -/
+theorem double_hashing_same_estimate (hash : List Nat → Nat) (s : Cms.St) (x y : Nat)
+    (h1 : hash [0, x] % s.w = hash [0, y] % s.w) (h2 : hash [1, x] % s.w = hash [1, y] % s.w) :
+    Cms.query hash s x = Cms.query hash s y := by
+  unfold Cms.query
+  rw [double_hashing_full_collision hash s.w s.d x y h1 h2]
+
+/-- Non-vacuity: with the sum hasher and width 3, elements 1 and 4 collide in all of 5 rows. -/
+example : HashIter.positions (fun l => l.sum) 3 5 1 = HashIter.positions (fun l => l.sum) 3 5 4 := by decide
+
 end Pds.Props.C08
